@@ -75,6 +75,10 @@ type Conf struct {
 	// only in a later descriptor, several endpoints of one binding.  The destination must be the
 	// first endpoint of the requested binding in document order over all descriptors.
 	IDPLayout string `json:"idp_layout,omitempty"`
+	// RespLoc: ResponseLocation on the IdP's real endpoints: "" absent | same | other (a different URL).
+	// Requests go to Location; for a LogoutResponse the property does not say which of the two is
+	// "the configured destination": either is accepted, but wire form and Destination attribute must agree.
+	RespLoc string `json:"resp_loc,omitempty"`
 	// Fields no clause mentions; varied, never judged.
 	LogoutBindings     []string `json:"logout_bindings,omitempty"`
 	AllowIDPInitiated  bool     `json:"allow_idp_initiated,omitempty"`
@@ -263,6 +267,7 @@ func genConf(t *rapid.T) Conf {
 		}
 	}
 	c.IDPLayout = rapid.SampledFrom(append([]string{"", ""}, idpLayouts...)).Draw(t, "layout")
+	c.RespLoc = rapid.SampledFrom([]string{"", "", "same", "other"}).Draw(t, "resploc")
 	c.LogoutBindings = rapid.SampledFrom([][]string{nil, {saml.HTTPPostBinding}, {saml.HTTPRedirectBinding, saml.HTTPPostBinding}, {saml.HTTPRedirectBinding}}).Draw(t, "logoutbindings")
 	c.AllowIDPInitiated = rapid.Bool().Draw(t, "idpinit")
 	c.ValidDurationS = rapid.SampledFrom([]int{0, 0, 3600, 86400 * 30}).Draw(t, "validdur")
@@ -588,6 +593,14 @@ func idpSpec(c Conf) []descSpec {
 	ssoP := saml.Endpoint{Binding: saml.HTTPPostBinding, Location: c.IDPSSO}
 	sloR := saml.Endpoint{Binding: saml.HTTPRedirectBinding, Location: c.IDPSLORedirect}
 	sloP := saml.Endpoint{Binding: saml.HTTPPostBinding, Location: c.IDPSLOPost}
+	for i, e := range []*saml.Endpoint{&ssoR, &ssoP, &sloR, &sloP} {
+		switch c.RespLoc {
+		case "same":
+			e.ResponseLocation = e.Location
+		case "other":
+			e.ResponseLocation = fmt.Sprintf("https://idp.example.org/responses/%d?kind=response", i)
+		}
+	}
 	decoy := func(b string, n int) saml.Endpoint {
 		return saml.Endpoint{Binding: b, Location: fmt.Sprintf("https://decoy%d.example/wrong", n)}
 	}
@@ -640,6 +653,30 @@ func endpointOf(c Conf, m Msg) string {
 	return ""
 }
 
+// destinations lists what may be the destination of m: the endpoint's Location and, for a
+// LogoutResponse only, its ResponseLocation when the metadata gives a different one.
+func destinations(c Conf, m Msg) []string {
+	out := []string{endpointOf(c, m)}
+	if m.Type != "logoutresp" {
+		return out
+	}
+	binding := saml.HTTPPostBinding
+	if m.Binding == "redirect" {
+		binding = saml.HTTPRedirectBinding
+	}
+	for _, d := range idpSpec(c) {
+		for _, e := range d.slo {
+			if e.Binding == binding {
+				if e.ResponseLocation != "" && e.ResponseLocation != e.Location {
+					out = append(out, e.ResponseLocation)
+				}
+				return out
+			}
+		}
+	}
+	return out
+}
+
 func paramOf(m Msg) (mine, other string) {
 	if m.Type == "logoutresp" {
 		return "SAMLResponse", "SAMLRequest"
@@ -663,14 +700,23 @@ type decoded struct {
 	relay      string // as a receiver reads it (post: DOM value)
 	relaySeen  bool
 	postFields [][2]string
+	// dest: the destination (one of destinations()) the wire form points at
+	dest string
 }
 
 func decodeRedirect(c Conf, m Msg, wire string) (*decoded, string) {
-	ep := urlw.Split(endpointOf(c, m))
 	w := urlw.Split(wire)
-	if w.Base != ep.Base {
-		return nil, fmt.Sprintf("redirect URL %q does not start with the configured endpoint %q", wire, ep.Base)
+	chosen := ""
+	for _, cand := range destinations(c, m) {
+		if urlw.Split(cand).Base == w.Base {
+			chosen = cand
+			break
+		}
 	}
+	if chosen == "" {
+		return nil, fmt.Sprintf("redirect URL %q does not start with the configured endpoint %q", wire, destinations(c, m))
+	}
+	ep := urlw.Split(chosen)
 	if w.HasFragment != ep.HasFragment || w.Fragment != ep.Fragment {
 		return nil, fmt.Sprintf("redirect URL carries fragment %q (endpoint: %q): everything after '#' never reaches the IdP\n  url: %s", w.Fragment, ep.Fragment, wire)
 	}
@@ -688,7 +734,7 @@ func decodeRedirect(c Conf, m Msg, wire string) (*decoded, string) {
 	if v := urlw.Get(ps, other); len(v) != 0 {
 		return nil, fmt.Sprintf("redirect query has an unexpected %s parameter\n  query: %q", other, w.RawQuery)
 	}
-	d := &decoded{}
+	d := &decoded{dest: chosen}
 	rs := urlw.Get(ps, "RelayState")
 	switch {
 	case m.RelayState == "" && len(rs) == 0:
@@ -734,9 +780,15 @@ func decodePost(c Conf, m Msg, page string) (*decoded, string) {
 		return nil, fmt.Sprintf("POST page has %d forms, want 1\n  page: %q", len(forms), page)
 	}
 	f := forms[0]
-	ep := endpointOf(c, m)
-	if f.Action != ep && urlw.UnescapeLenient(f.Action, false) != urlw.UnescapeLenient(ep, false) {
-		return nil, fmt.Sprintf("form action is %q, configured destination is %q", f.Action, ep)
+	ep := ""
+	for _, cand := range destinations(c, m) {
+		if f.Action == cand || urlw.UnescapeLenient(f.Action, false) == urlw.UnescapeLenient(cand, false) {
+			ep = cand
+			break
+		}
+	}
+	if ep == "" {
+		return nil, fmt.Sprintf("form action is %q, configured destination is %q", f.Action, destinations(c, m))
 	}
 	if !strings.EqualFold(f.Method, "post") {
 		return nil, fmt.Sprintf("form method is %q", f.Method)
@@ -757,7 +809,7 @@ func decodePost(c Conf, m Msg, page string) (*decoded, string) {
 	if htmlw.HTMLNormalize(rs[0]) != htmlw.HTMLNormalize(m.RelayState) {
 		return nil, fmt.Sprintf("relay state %q reads back as %q from the form field", m.RelayState, rs[0])
 	}
-	d := &decoded{relay: rs[0], relaySeen: true}
+	d := &decoded{relay: rs[0], relaySeen: true, dest: ep}
 	for _, in := range f.Inputs {
 		if in.Name != "" {
 			d.postFields = append(d.postFields, [2]string{in.Name, in.Value})
@@ -799,8 +851,8 @@ func checkXML(c Conf, p *parties, m Msg, d *decoded) string {
 	if v := root.AttrOr("Version"); v != "2.0" {
 		return fmt.Sprintf("Version is %q", v)
 	}
-	if v := root.AttrOr("Destination"); v != endpointOf(c, m) {
-		return fmt.Sprintf("Destination is %q, configured endpoint is %q", v, endpointOf(c, m))
+	if v := root.AttrOr("Destination"); v != d.dest {
+		return fmt.Sprintf("Destination is %q, but the message is delivered to %q (configured: %q)", v, d.dest, destinations(c, m))
 	}
 	iss, err := root.Kid(samlwire.NSAssertion, "Issuer")
 	if err != nil || iss == nil {
@@ -1307,9 +1359,10 @@ func enumPairs(_ string, emit func(Case)) {
 // of all six kinds on one SP per layout.
 func enumLayouts(_ string, emit func(Case)) {
 	for _, layout := range idpLayouts {
-		for _, sig := range []string{"", dsig.RSASHA256SignatureMethod} {
+		for si, sig := range []string{"", dsig.RSASHA256SignatureMethod, dsig.RSASHA1SignatureMethod} {
 			cf := baseConf()
 			cf.IDPLayout, cf.SigMethod = layout, sig
+			cf.RespLoc = []string{"", "other", "same"}[si]
 			cf.IDPSSO = "https://idp.example.org/sso?tenant=1"
 			var seq []Msg
 			for i, k := range kinds {
@@ -1362,6 +1415,7 @@ var prop = &pbt.Prop[Case]{
 		"results are judged only after the whole sequence has been created: every []byte / *url.URL a call returned is kept, compared with a copy taken at creation time, and decoded then",
 		"between two creations the application may change public fields of the one ServiceProvider value (EntityID, AuthnNameIDFormat, ForceAuthn, RequestedAuthnContext); each message must reflect the configuration in force when it was created (the IdP is re-registered with the SP's then-current metadata)",
 		"the SP's copy of the IdP metadata is laid out by the harness (idpSpec): one or several IDPSSODescriptors, either endpoint order, endpoints of other bindings, the binding in use only in a later descriptor, several endpoints of one binding; the configured destination is the first endpoint of the requested binding in document order over all descriptors; every layout offers every binding",
+		"IdP endpoints carry no / an equal / a different ResponseLocation: requests must go to Location; for a LogoutResponse either Location or ResponseLocation is accepted (property silent), but URL / form action and the Destination attribute must name the same one",
 		"LogoutBindings, AllowIDPInitiated, MetadataValidDuration and DefaultRedirectURI are varied and never judged",
 		"POST forms: the relay state is compared with the DOM value modulo the HTML parser's own CR -> LF rewriting of literal attribute text",
 		"an empty relay state may be emitted as no RelayState parameter or as one empty parameter (both read back as empty)",
